@@ -260,6 +260,25 @@ def partition_obligations(ctx: Ctx) -> None:
             continue
         s, args, kw = l.run.__dict__["o"]
         at, ch = s.attrs.get("attrs"), s.attrs.get("children")
+        n_args = _len_on_path(l.atoms, args.uid)
+        if n_args in (0, 1) and isinstance(at, SNew) and isinstance(ch, SNew) and at.cls_name == "TagAttrDict" and ch.cls_name == "TagList" \
+                and not at.star and not ch.star:
+            # a fast path for no / one positional argument: the same partition, spelled out
+            pa, pc = list(at.args), list(ch.args)
+            only = pa + pc
+            ok_fast = len(at.dstar) == 1 and at.dstar[0] is kw and not at.kwargs and not ch.kwargs and not ch.dstar
+            if n_args == 0:
+                ok_fast = ok_fast and not only
+            else:
+                ok_fast = ok_fast and len(only) == 1 and isinstance(only[0], SObj) and str(only[0].name).startswith(f"{args.name}[")
+                if ok_fast:
+                    e_ = only[0]
+                    ok_fast = (bool(pa) and e_.kinds <= DICT_KINDS) or (bool(pc) and not (e_.kinds & DICT_KINDS))
+            ctx.check(ok_fast, "C15.partition", f"with {n_args} positional argument(s): attrs / children hold exactly the dict / non-dict arguments", where,
+                      f"{n_args} args: self.attrs = {short(at)}; self.children = {short(ch)}",
+                      f"with {n_args} positional argument(s) the tag is built as attrs={short(at)}, children={short(ch)}: not the dict arguments as attributes "
+                      f"(followed by the keywords) and the other arguments as children")
+            continue
         ok_a = isinstance(at, SNew) and at.cls_name == "TagAttrDict" and len(at.star) == 1 and isinstance(at.star[0], SList) \
             and at.star[0].mode == "view" and at.star[0].base is args and at.star[0].kinds == DICT_KINDS and not at.args \
             and len(at.dstar) == 1 and at.dstar[0] is kw
@@ -317,6 +336,24 @@ def partition_obligations(ctx: Ctx) -> None:
             okc = okc and bool(el) and (bool(cs) or all(isinstance(e, SObj) and e.kinds <= DICT_KINDS for e in el))
         ctx.check(okc, "C15.consolidate", "second result is the non-dict arguments, filtered by the same predicate as Tag.__init__", w2,
                   f"children result {short(c)}", f"the children returned are {short(c)}: not exactly the arguments Tag() does not treat as attribute dicts")
+
+
+def _len_on_path(atoms: Any, uid: int) -> Any:
+    """0 / 1 when the path's count decisions fix the length of the collection, else None."""
+    groups = [(frozenset(a[2]), str(lab)) for a, lab in atoms if isinstance(a, tuple) and a[0] == "count" and a[1] == uid]
+    for a, lab in atoms:
+        if isinstance(a, tuple) and a[0] == "nonempty" and a[1] == uid and lab is False:
+            return 0
+    if not groups:
+        return None
+    cov = frozenset().union(*[g for g, _ in groups])
+    if cov != frozenset(ALL_KINDS):
+        return None
+    labs = [lab for _, lab in groups]
+    if any(x not in ("n=0", "n=1") for x in labs):
+        return None
+    n = labs.count("n=1")
+    return n if n <= 1 else None
 
 
 def _splat_carried(v: Any) -> Any:
